@@ -9,14 +9,18 @@ package sm4_test
 // before touching anything. Nothing is committed.
 
 import (
+	"bytes"
 	"fmt"
 	"os"
+	"sync"
+	"sync/atomic"
 	"os/exec"
 	"strings"
 	"syscall"
 	"testing"
 	"unsafe"
 
+	"verif.local/ref/gcmref"
 	"verif.local/ref/guard"
 	"verif.local/ref/stats"
 	"verif.local/ref/vt"
@@ -143,4 +147,75 @@ func TestVerif_C06_ResultAround4G(t *testing.T) {
 			}
 		}
 	}
+}
+
+// One AEAD object used for a LONG time: more than 2^32 blocks (64 GiB) of plaintext pass through it in 64 MiB messages (eight
+// goroutines, each sealing its own buffer in place), with a short message sealed and compared with the reference every 64 calls
+// and at the end. GCM limits the number of invocations per key (2^32) and the length of ONE message, not the total volume; an
+// object that keeps count of something must count the right thing. Thorough tier (about a minute).
+func TestVerif_C06_LongLivedAEAD(t *testing.T) {
+	rec := stats.Get("C06", "long-lived-aead")
+	rec.Rule("thorough only: 1040 Seal calls of 64 MiB each (65 GiB, 2^32 + 2^26 blocks) through ONE AEAD from 8 goroutines, in place; after every 64th call and at the end a 45-byte message is sealed on the same object and compared with the reference, and opened again. Oracle: no panic, reference result. One history; non-trivial.")
+	t.Cleanup(stats.FlushAll)
+	if !hugeGate(t, rec, 2) {
+		return
+	}
+	a, ref := hugeAEAD(t)
+	short := []byte("the forty-five byte message sealed in between")
+	aad := []byte("hdr")
+	check := func(when string) bool {
+		nonce := make([]byte, 12)
+		copy(nonce, when)
+		var got []byte
+		if p := vt.Catch(func() { got = a.Seal(nil, nonce, short, aad) }); p != nil {
+			vt.Fail(t, rec, "C06:long-lived:panic", "Seal of a short message on an AEAD that has sealed %s panicked: %v", when, p)
+			return false
+		}
+		if want := gcmref.Seal(ref, nonce, short, aad, 16); !bytes.Equal(got, want) {
+			vt.Fail(t, rec, "C06:long-lived:wrong", "Seal of a short message on an AEAD that has sealed %s differs from the reference", when)
+			return false
+		}
+		if pt, err := a.Open(nil, nonce, got, aad); err != nil || !bytes.Equal(pt, short) {
+			vt.Fail(t, rec, "C06:long-lived:open", "Open on an AEAD that has sealed %s fails: %v", when, err)
+			return false
+		}
+		return true
+	}
+	const msg = 64 << 20
+	const calls = 1040
+	const workers = 8
+	var bad atomic.Value
+	var wg sync.WaitGroup
+	var next atomic.Int64
+	for w := 0; w < workers; w++ {
+		wg.Add(1)
+		go func(w int) {
+			defer wg.Done()
+			buf := make([]byte, msg, msg+16)
+			nonce := make([]byte, 12)
+			for {
+				i := next.Add(1)
+				if i > calls || bad.Load() != nil {
+					return
+				}
+				nonce[0], nonce[1], nonce[2] = byte(i), byte(i>>8), byte(w)
+				if p := vt.Catch(func() { a.Seal(buf[:0], nonce, buf, nil) }); p != nil {
+					bad.CompareAndSwap(nil, fmt.Sprintf("call %d (64 MiB, about %d GiB sealed so far) panicked: %v", i, i/16, p))
+					return
+				}
+				if i%64 == 0 && !check(fmt.Sprintf("%d GiB", i/16)) {
+					bad.CompareAndSwap(nil, "short message check failed")
+					return
+				}
+			}
+		}(w)
+	}
+	wg.Wait()
+	rec.Case(1, true, "long-lived")
+	rec.Sample("history", map[string]interface{}{"calls": calls, "bytes_per_call": msg, "workers": workers})
+	if m := bad.Load(); m != nil && m != "short message check failed" {
+		vt.Fail(t, rec, "C06:long-lived:panic", "%s", m)
+		return
+	}
+	check("65 GiB")
 }
